@@ -545,7 +545,7 @@ class G:
         self.stmt_budget -= 1
         if self.stmt_budget < 0:
             return self.s_print(sc, ctx) if self.chance(70) else self.s_def(sc, ctx)
-        opts = [(6, "print"), (5, "def")]
+        opts = [(6, "print"), (5, "def"), (2, "tower")]
         mut = [(n, t) for n, (t, m) in allv.items() if m and t in PRIMS]
         if mut:
             opts += [(3, "assign"), (2, "aug")]
@@ -586,6 +586,35 @@ class G:
     def obj_vars(self, sc, mutable_only=False):
         return [(n, t) for n, (t, m) in sc.all().items()
                 if is_cls(t) and t[1] in self.classes and t[1] not in self.excs and (m or not mutable_only)]
+
+    def tower(self, sc, depth):
+        """Arithmetic over small integers nested to the left AND to the right with operators of equal and different precedence:
+        every grouping changes the value (the model parenthesises every nested operand, so the grouping is explicit)."""
+        if depth <= 0:
+            ints = sc.of_type(INT)
+            if ints and self.chance(25):
+                return ("var", INT, self.pick(ints))
+            return ("lit", INT, self.int(2, 5))
+        op = self.pick(["-", "-", "//", "^", "^", "mod", "+", "*"])
+        left = self.tower(sc, depth - 1 if self.chance(70) else 0)
+        if op == "^":
+            # exponent: 2..3 or a small power of literals (never negative, values stay below 2^81)
+            right = ("lit", INT, self.int(2, 3)) if self.chance(60) else ("bin", INT, "^", ("lit", INT, 2), ("lit", INT, self.int(1, 2)))
+            if left[0] == "bin" and left[2] == "^" and left[3][0] == "bin":
+                left = ("lit", INT, self.int(2, 3))
+        elif op in ("//", "mod"):
+            right = ("lit", INT, self.int(2, 7)) if self.chance(50) else ("bin", INT, "+", self.tower(sc, 0), ("lit", INT, 1))
+        else:
+            right = self.tower(sc, depth - 1 if self.chance(70) else 0)
+        return ("bin", INT, op, left, right)
+
+    def s_tower(self, sc, ctx):
+        e = self.tower(sc, self.int(2, 3))
+        if self.chance(30):
+            name = self.fresh("v")
+            sc.add(name, INT, False)
+            return [("def", name, INT, False, self.chance(50), e), ("print", ("var", INT, name))]
+        return [("print", e)]
 
     def s_print(self, sc, ctx):
         t = self.printable(sc)
